@@ -43,4 +43,10 @@ def configCRL (s : S) (fail : Nat) : S × Bool := run fail s [.flag, .crl] 1
 def configCRLStoredDiff (s : S) (fail : Nat) : S × Bool :=
   if s.flag then run fail s [.flag] 1 else run fail s [.flag, .crl] 1
 
+/-- before the repair of F109: the `revoked/<serial>` entry was written only when `certs/<serial>` existed
+(`certStored`) — not for an issuer that was imported rather than signed by this mount -/
+def issuerRevokeIfStored (certStored : Bool) (s : S) (fail : Nat) : S × Bool :=
+  if certStored then issuerRevoke s fail
+  else if s.flag then run fail s [.crl] 1 else run fail s [.flag, .crl] 1
+
 end Obao.PKIReport
